@@ -32,3 +32,135 @@ Print Assumptions C19_postcard_encoded_item.
 Theorem C19_parent_hint2_refuted : forall p rest, parent_ok p -> de_parent (ser_parent 2 p ++ rest) = None.
 Proof. exact de_parent_hint2_fails. Qed.
 Print Assumptions C19_parent_hint2_refuted.
+
+(* ======================================================================================================
+   Gap audit additions (Proofs/GapC19.v)
+   ====================================================================================================== *)
+From BaoV Require Import Proofs.GapC19.
+
+(* ---- the other direction: whatever the postcard decoders accept (over bytes, i.e. numbers < 256) is a value in
+   the range of the `_ok` predicates, consumed a prefix of the input, and survives re-serialisation ---- *)
+Theorem C19_postcard_u64_sound : forall l n r, Forall (fun b => b < 256) l -> take_varint l = Some (n, r) ->
+  n < 2 ^ 64 /\ exists used, l = used ++ r /\ (1 <= length used <= 10)%nat.
+Proof. exact take_varint_bound. Qed.
+Print Assumptions C19_postcard_u64_sound.
+Theorem C19_postcard_parent_sound : forall l v r, Forall (fun b => b < 256) l -> de_parent l = Some (v, r) ->
+  parent_ok v /\ (exists used, l = used ++ r) /\ de_parent (ser_parent PARENT_HINT v ++ r) = Some (v, r).
+Proof. exact de_parent_sound. Qed.
+Print Assumptions C19_postcard_parent_sound.
+Theorem C19_postcard_leaf_sound : forall l v r, Forall (fun b => b < 256) l -> de_leaf l = Some (v, r) ->
+  leaf_ok v /\ (exists used, l = used ++ r) /\ de_leaf (ser_leaf v ++ r) = Some (v, r).
+Proof. exact de_leaf_sound. Qed.
+Print Assumptions C19_postcard_leaf_sound.
+Theorem C19_postcard_content_sound : forall l v r, Forall (fun b => b < 256) l -> de_content l = Some (v, r) ->
+  match v with CParentV p => parent_ok p | CLeafV x => leaf_ok x end /\ (exists used, l = used ++ r) /\
+  de_content (ser_content PARENT_HINT v ++ r) = Some (v, r).
+Proof. exact de_content_sound. Qed.
+Print Assumptions C19_postcard_content_sound.
+Theorem C19_postcard_encode_error_sound : forall l v r, Forall (fun b => b < 256) l -> de_eerr l = Some (v, r) ->
+  eerr_ok v /\ (exists used, l = used ++ r) /\ de_eerr (ser_eerr v ++ r) = Some (v, r).
+Proof. exact de_eerr_sound. Qed.
+Print Assumptions C19_postcard_encode_error_sound.
+Theorem C19_postcard_encoded_item_sound : forall l v r, Forall (fun b => b < 256) l -> de_eitem l = Some (v, r) ->
+  eitem_ok v /\ (exists used, l = used ++ r) /\ de_eitem (ser_eitem PARENT_HINT v ++ r) = Some (v, r).
+Proof. exact de_eitem_sound. Qed.
+Print Assumptions C19_postcard_encoded_item_sound.
+(* ser (de l) = l does NOT hold: postcard accepts non-canonical varints (an observation, not a defect) *)
+Theorem C19_postcard_varint_not_canonical : take_varint [128; 0] = Some (0, []) /\ varint 0 = [0].
+Proof. exact varint_not_canonical. Qed.
+Print Assumptions C19_postcard_varint_not_canonical.
+
+(* ---- error cases of deserialisation ---- *)
+Theorem C19_content_bad_tag : forall l v r, take_varint l = Some (v, r) -> 2 <= v -> de_content l = None.
+Proof. exact de_content_bad_tag. Qed.
+Print Assumptions C19_content_bad_tag.
+Theorem C19_encode_error_bad_tag : forall l v r, take_varint l = Some (v, r) -> 6 <= v -> de_eerr l = None.
+Proof. exact de_eerr_bad_tag. Qed.
+Print Assumptions C19_encode_error_bad_tag.
+Theorem C19_encoded_item_bad_tag : forall l v r, take_varint l = Some (v, r) -> 5 <= v -> de_eitem l = None.
+Proof. exact de_eitem_bad_tag. Qed.
+Print Assumptions C19_encoded_item_bad_tag.
+(* a Parent announced with fewer than 3 elements never deserialises (generalises C19_parent_hint2_refuted) *)
+Theorem C19_parent_short_seq : forall l len r, take_varint l = Some (len, r) -> len < 3 -> de_parent l = None.
+Proof. exact de_parent_short_seq. Qed.
+Print Assumptions C19_parent_short_seq.
+Theorem C19_parent_short_hashes : forall p, p_node p < 2 ^ 64 -> (length (p_l p) + length (p_r p) < 64)%nat ->
+  de_parent (ser_parent PARENT_HINT p) = None.
+Proof. exact de_parent_short_hashes. Qed.
+Print Assumptions C19_parent_short_hashes.
+(* truncation: no strict prefix of a serialisation deserialises *)
+Theorem C19_u64_truncated : forall n m, m < 2 ^ 64 -> (n < length (varint m))%nat ->
+  take_varint (firstn n (varint m)) = None.
+Proof. exact varint_truncated. Qed.
+Print Assumptions C19_u64_truncated.
+Theorem C19_parent_truncated : forall p n, parent_ok p -> (n < length (ser_parent PARENT_HINT p))%nat ->
+  de_parent (firstn n (ser_parent PARENT_HINT p)) = None.
+Proof. exact parent_truncated. Qed.
+Print Assumptions C19_parent_truncated.
+Theorem C19_leaf_truncated : forall x n, leaf_ok x -> (n < length (ser_leaf x))%nat ->
+  de_leaf (firstn n (ser_leaf x)) = None.
+Proof. exact leaf_truncated. Qed.
+Print Assumptions C19_leaf_truncated.
+Theorem C19_content_truncated : forall c n,
+  match c with CParentV p => parent_ok p | CLeafV x => leaf_ok x end ->
+  (n < length (ser_content PARENT_HINT c))%nat ->
+  de_content (firstn n (ser_content PARENT_HINT c)) = None.
+Proof. exact content_truncated. Qed.
+Print Assumptions C19_content_truncated.
+Theorem C19_encode_error_truncated : forall e n, eerr_ok e -> (n < length (ser_eerr e))%nat ->
+  de_eerr (firstn n (ser_eerr e)) = None.
+Proof. exact eerr_truncated. Qed.
+Print Assumptions C19_encode_error_truncated.
+Theorem C19_encoded_item_truncated : forall i n, eitem_ok i -> (n < length (ser_eitem PARENT_HINT i))%nat ->
+  de_eitem (firstn n (ser_eitem PARENT_HINT i)) = None.
+Proof. exact eitem_truncated. Qed.
+Print Assumptions C19_encoded_item_truncated.
+
+(* ---- the io error convention (src/lib.rs io_error_serde): serialised as the text "{kind:?}:{msg}", which comes
+   back verbatim as the message of the new io error: it contains the kind and the message ---- *)
+Theorem C19_io_error_text : forall kind msg rest,
+  N.of_nat (length (kind ++ [58] ++ msg)) < 2 ^ 64 ->
+  de_eerr (ser_eerr (VIo (kind ++ [58] ++ msg)) ++ rest) = Some (VIo (kind ++ [58] ++ msg), rest) /\
+  (exists a b, kind ++ [58] ++ msg = a ++ kind ++ b) /\ (exists a b, kind ++ [58] ++ msg = a ++ msg ++ b).
+Proof. exact io_error_text_roundtrip. Qed.
+Print Assumptions C19_io_error_text.
+Theorem C19_io_error_item_text : forall kind msg rest,
+  N.of_nat (length (kind ++ [58] ++ msg)) < 2 ^ 64 ->
+  de_eitem (ser_eitem PARENT_HINT (VError (VIo (kind ++ [58] ++ msg))) ++ rest)
+    = Some (VError (VIo (kind ++ [58] ++ msg)), rest) /\
+  (exists a b, kind ++ [58] ++ msg = a ++ kind ++ b) /\ (exists a b, kind ++ [58] ++ msg = a ++ msg ++ b).
+Proof. exact io_error_item_text_roundtrip. Qed.
+Print Assumptions C19_io_error_item_text.
+
+(* ---- JSON: the texts of Model/Serde.v parse back (specification-side parsers pnum / parr / pjson_parent /
+   pjson_leaf of Proofs/GapC19.v) to the value, hence determine it ---- *)
+Theorem C19_json_u64 : forall n rest, n < 2 ^ 64 ->
+  (match rest with d :: _ => (48 <=? d) && (d <=? 57) = false | [] => True end) ->
+  pnum (jnum n ++ rest) = (n, rest).
+Proof. exact jnum_roundtrip_u64. Qed.
+Print Assumptions C19_json_u64.
+Theorem C19_json_byte_array : forall l rest, Forall (fun b => b < 256) l ->
+  parr (S (length l)) (jarr l ++ rest) = Some (l, rest).
+Proof. exact jarr_roundtrip_bytes. Qed.
+Print Assumptions C19_json_byte_array.
+Theorem C19_json_parent : forall p rest, p_node p < 2 ^ 64 ->
+  Forall (fun b => b < 256) (p_l p) -> Forall (fun b => b < 256) (p_r p) ->
+  pjson_parent (json_parent p ++ rest) = Some (p, rest).
+Proof. exact json_parent_roundtrip. Qed.
+Print Assumptions C19_json_parent.
+Theorem C19_json_leaf : forall x rest, l_off x < 2 ^ 64 -> Forall (fun b => b < 256) (l_data x) ->
+  pjson_leaf (json_leaf x ++ rest) = Some (x, rest).
+Proof. exact json_leaf_roundtrip. Qed.
+Print Assumptions C19_json_leaf.
+Theorem C19_json_parent_injective : forall p p',
+  p_node p < 2 ^ 64 -> Forall (fun b => b < 256) (p_l p) -> Forall (fun b => b < 256) (p_r p) ->
+  p_node p' < 2 ^ 64 -> Forall (fun b => b < 256) (p_l p') -> Forall (fun b => b < 256) (p_r p') ->
+  json_parent p = json_parent p' -> p = p'.
+Proof. exact json_parent_injective. Qed.
+Print Assumptions C19_json_parent_injective.
+Theorem C19_json_leaf_injective : forall x x',
+  l_off x < 2 ^ 64 -> Forall (fun b => b < 256) (l_data x) ->
+  l_off x' < 2 ^ 64 -> Forall (fun b => b < 256) (l_data x') ->
+  json_leaf x = json_leaf x' -> x = x'.
+Proof. exact json_leaf_injective. Qed.
+Print Assumptions C19_json_leaf_injective.
